@@ -376,9 +376,22 @@ func (rr *renderer) renderList(f *fileBuf, dirs []*Dir, depth int) {
 					rr.eol(f)
 				}
 				tb := -1
+				// lines of blanks only (shorter or longer than the indentation of the text): before the text, in place of
+				// its empty lines, after it
+				br := &lrnd{l: l, id: d.ID, what: "textblanks"}
+				blanks := func() string { return pick(br, []string{" ", "  ", "\t", bind, bind + "   ", ind + " "}) }
+				wsLines := !l.Plain && l.PTrail > 0
+				if wsLines && chance(br, 1, 5) {
+					f.sb.WriteString(blanks())
+					rr.eol(f)
+					rr.out.Features["text-blank-only-line"]++
+				}
 				for _, bl := range d.Body {
 					if bl != "" {
 						f.sb.WriteString(bind)
+					} else if wsLines && chance(br, 1, 2) {
+						f.sb.WriteString(blanks())
+						rr.out.Features["text-blank-only-line"]++
 					}
 					if tb < 0 {
 						tb = f.off()
@@ -387,6 +400,11 @@ func (rr *renderer) renderList(f *fileBuf, dirs []*Dir, depth int) {
 					rr.eol(f)
 				}
 				te := f.off() - len(l.EOL) - 1
+				if wsLines && chance(br, 1, 6) {
+					f.sb.WriteString(blanks())
+					rr.eol(f)
+					rr.out.Features["text-blank-only-line"]++
+				}
 				if textParens {
 					f.sb.WriteString(ind + ")")
 					te = f.off() - 1
